@@ -36,12 +36,14 @@ class UserExc(Exception):
         self.mid = mid
 
 
-def load_source(src, globs, mid=None, tag="x"):
-    """exec ``src`` under a fresh virtual file name; returns the namespace."""
+def load_source(src, globs, mid=None, tag="x", shared=False):
+    """exec ``src`` under a fresh virtual file name; returns the namespace.
+    shared=True executes in ``globs`` itself (all methods of a case share one globals dict, the
+    way methods of a user's module do)."""
     fname = f"<vf:{tag}:{next(_file_counter)}>"
     linecache.cache[fname] = (len(src), None, src.splitlines(True), fname)
     FILE_MID[fname] = mid
-    ns = dict(globs)
+    ns = globs if shared else dict(globs)
     ns.setdefault("__name__", "vfcase")
     ns.setdefault("call_next", ovld.call_next)
     ns.setdefault("recurse", ovld.recurse)
@@ -89,7 +91,7 @@ def param_list(spec):
 
 
 def make_method(spec, env, vf, body_lines, tag="x", extra_globals=None, ann_override=None,
-                spelling="typing", name=None):
+                spelling="typing", name=None, shared_ns=None):
     """Build the function object for one method spec.
 
     body_lines: list of source lines executed after ``__vf.enter``.
@@ -101,10 +103,14 @@ def make_method(spec, env, vf, body_lines, tag="x", extra_globals=None, ann_over
     fname = name or f"m{mid}"
     src = f"def {fname}({params}):\n    __vf.enter({mid}, locals())\n"
     src += "".join(f"    {line}\n" for line in body_lines)
-    globs = {"__vf": vf, "UserExc": UserExc, **defaults}
+    if shared_ns is not None:
+        globs = shared_ns
+        globs.update({"__vf": vf, "UserExc": UserExc, **defaults})
+    else:
+        globs = {"__vf": vf, "UserExc": UserExc, **defaults}
     if extra_globals:
         globs.update(extra_globals)
-    ns, file = load_source(src, globs, mid=mid, tag=tag)
+    ns, file = load_source(src, globs, mid=mid, tag=tag, shared=shared_ns is not None)
     fn = ns[fname]
     anns = {}
     for p in spec.get("pos", []):
